@@ -101,6 +101,46 @@ def run_threads(ctx, duration, nthreads):
     return errors, sum(counts.values())
 
 
+def run_same_text_recompiles(ctx, rounds, nthreads):
+    """all threads recompile ONE evaluator to the same new text at the same moment; each thread's next call (after its own
+    recompile returned) must already be served by the new experiment"""
+    from pyab_experiment.experiment_evaluator import ExperimentEvaluator
+    errors = []
+    old_sw = sys.getswitchinterval()
+    sys.setswitchinterval(1e-6)
+    try:
+        for r in range(rounds):
+            branches = " ".join('else if x == %d { return "n%d_%d" weighted 1 /* c%d */ }' % (k, r, k, k) for k in range(1, 120))
+            old = 'def e { salt: "o" splitters: u return "old" weighted 1 }'
+            new = 'def e { salt: "n%d" splitters: u if x == 0 { return "n%d_0" weighted 1 } %s else { return "new%d" weighted 1 } }' % (r, r, branches, r)
+            ev = ExperimentEvaluator(old)
+            want = ExperimentEvaluator(new)(u="u1", x=-1)
+            barrier = threading.Barrier(nthreads)
+
+            def worker(tid):
+                try:
+                    barrier.wait(timeout=30)
+                    time.sleep(0.0005 * tid)              # staggered arrival: later threads find a compile in progress
+                    ev.recompile(new)
+                    got = ev(u="u1", x=-1)
+                    if got != want:
+                        errors.append({"kind": "own-recompile-not-visible", "round": r, "thread": tid, "got": got, "want": want})
+                except Exception as ex:  # noqa
+                    errors.append({"kind": "same-text-recompile-raised", "error": repr(ex)[:200]})
+
+            ths = [threading.Thread(target=worker, args=(i,)) for i in range(nthreads)]
+            for t in ths:
+                t.start()
+            for t in ths:
+                t.join()
+            ctx.count(f"same-text-recompile-rounds")
+            if errors:
+                break
+    finally:
+        sys.setswitchinterval(old_sw)
+    return errors
+
+
 def run(ctx):
     dur = DUR[ctx.tier]
     if ctx.obligation_breaks:
@@ -120,6 +160,8 @@ def run(ctx):
         total += ops
         for e in errors[:3]:
             ctx.violation(f"threads={n}: {e['kind']}: {json.dumps(e)[:200]}", e)
+    for e in run_same_text_recompiles(ctx, 4 if ctx.tier == "quick" else 40, 6)[:2]:
+        ctx.violation(f"after its own recompile(new) returned, a thread's call is still served by the old experiment: {json.dumps(e)[:200]}", e)
     for i in range(max(2, min(total, 5000))):
         ctx.case(("thread-op", i), True)
     ctx.cov["samples"].append({"threads": [2, 4, 8, 16], "operations": total, "switch_interval": 1e-6})
